@@ -450,9 +450,21 @@ func check(w world) (nt bool, labels []string, sig string, err error) {
 	freshAs := func(lq *liveQuery, f sqlgen.Filter) ([]string, error) {
 		return runQ(ctx, db, w.table, lq.entry, lq.optKind, f)
 	}
+	// Stop waits for a run in flight (milliseconds here). A rerunner that is wedged never lets
+	// Stop return: the clean-up must not wedge with it.
+	stopWithin := func(lq *liveQuery, d time.Duration) bool {
+		done := make(chan struct{})
+		go func() { lq.rr.Stop(); close(done) }()
+		select {
+		case <-done:
+			return true
+		case <-time.After(d):
+			return false
+		}
+	}
 	defer func() {
 		for _, lq := range lives {
-			lq.rr.Stop()
+			stopWithin(lq, 200*time.Millisecond)
 		}
 	}()
 
@@ -527,7 +539,9 @@ func check(w world) (nt bool, labels []string, sig string, err error) {
 		case "stop":
 			if len(lives) > 0 {
 				lq := lives[a.idx%len(lives)]
-				lq.rr.Stop()
+				if !stopWithin(lq, 10*time.Second) {
+					return false, nil, "wedged", fmt.Errorf("live query %d %s: Stop of its rerunner does not return within 10s (no run takes more than milliseconds): the rerunner is wedged and the query will never run again", a.idx%len(lives), lq.descr)
+				}
 				lq.stopped = true
 			}
 		}
@@ -601,8 +615,10 @@ func check(w world) (nt bool, labels []string, sig string, err error) {
 		return false, nil, sig, fmt.Errorf("%v\n(undecodable event in history: %v, alter: %v)", lastErr, undecodable, altered)
 	}
 	// release: after stopping everything no dependency stays registered
-	for _, lq := range lives {
-		lq.rr.Stop()
+	for i, lq := range lives {
+		if !stopWithin(lq, 10*time.Second) {
+			return false, nil, "wedged", fmt.Errorf("live query %d %s: Stop of its rerunner does not return within 10s: the rerunner is wedged", i, lq.descr)
+		}
 	}
 	ok := false
 	for i := 0; i < 3000; i++ {
